@@ -475,6 +475,11 @@ def explore(col, active, depth, shard, nshards, scratch, pts_name="pts"):
                     # notices when the graph is built (exempt, as in C09)
                     col.count("pack_raised_exempt")
                     return None
+                if o[0] == "d_cx":
+                    # the same call site as the cx probe of check_dask_state (cx selects partitions when it is built)
+                    col.violation("dd.cx.raises", case_for(hist + [op]), f"after {hist[-3:]}: {type(ex).__name__}: {str(ex)[:150]}", op=o[0],
+                                  after_pack=any(h[0] == "d_pack" for h in hist), err=type(ex).__name__)
+                    return None
                 col.violation("op.raises", case_for(hist + [op]), f"{o} raised {type(ex).__name__}: {str(ex)[:200]}", op=o[0])
                 return None
             cm = apply_model(cm, o)
@@ -641,6 +646,9 @@ def replay(ctx, case):
             if any(h[0] == "d_pack" for h in hist + [o]):
                 return col.violations       # dask cannot split the packed frame: exempt
             raise
+        except Exception as ex:
+            col.violation("dd.cx.raises" if o[0] == "d_cx" else "op.raises", case, f"{o} raised {type(ex).__name__}: {str(ex)[:200]}", op=o[0])
+            return col.violations
         cm = apply_model(cm, o)
         hist.append(o)
     if cm.kind == "pd":
